@@ -139,12 +139,15 @@ struct Case {
     llvm: bool,
     arts: Vec<Artifact>,
     layouts: Vec<Layout>,
+    /// also run the `grcov` binary on every layout and compare the lcov reports
+    cli: bool,
 }
 
 fn case_json(c: &Case) -> Value {
     json!({
         "ignore_orphan_gcno": c.ignore_orphan,
         "is_llvm": c.llvm,
+        "cli": c.cli,
         "artifacts": c.arts.iter().map(|a| json!({"rel": a.rel, "intent": intent_name(a.intent),
             "content_hex": hex(&a.content), "bytes": a.content.len()})).collect::<Vec<_>>(),
         "layouts": c.layouts.iter().map(|l| json!({
@@ -207,6 +210,7 @@ fn case_from_json(v: &Value) -> Case {
         llvm: v["is_llvm"].as_bool().unwrap(),
         arts,
         layouts,
+        cli: v["cli"].as_bool().unwrap_or(false),
     }
 }
 
@@ -305,7 +309,8 @@ fn canon_item(it: &WorkItem, paths: &[String]) -> (String, String) {
     (obs, name)
 }
 
-fn run_layout(root: &Path, case: &Case, lay: &Layout) -> LayoutRun {
+/// write the layout under `root`; returns the argument strings and the ARG tokens of the model request
+fn build_layout(root: &Path, case: &Case, lay: &Layout) -> (Vec<String>, Vec<String>) {
     std::fs::create_dir_all(root).unwrap();
     let cwd = std::env::current_dir().unwrap();
     let arg_string = |p: &Path| -> String {
@@ -386,6 +391,11 @@ fn run_layout(root: &Path, case: &Case, lay: &Layout) -> LayoutRun {
             }
         }
     }
+    (paths, req)
+}
+
+fn run_layout(root: &Path, case: &Case, lay: &Layout) -> LayoutRun {
+    let (paths, req) = build_layout(root, case, lay);
     let tmp = tempfile::tempdir_in(root).unwrap();
     let tmp_path = tmp.path().to_path_buf();
     let (sender, receiver) = unbounded();
@@ -546,6 +556,8 @@ fn strip_stems(obs: &str, stems: &BTreeSet<String>) -> String {
 
 struct OracleFail {
     finding: Option<&'static str>,
+    /// which check failed (shrinking keeps the class)
+    class: &'static str,
     what: String,
 }
 
@@ -575,7 +587,7 @@ fn oracles(case: &Case, runs: &[LayoutRun]) -> Option<OracleFail> {
             ] {
                 if needs && r.obs == expected(case, v, &choice_from(case, &r.obs)) {
                     return Some(OracleFail {
-                        finding: Some(id),
+                        finding: Some(id), class: "exact",
                         what: format!(
                             "exactness: layout {} delivers [{}], every artifact exactly once means [{}]; the \
                              difference is exactly the JaCoCo report(s) that is_jacoco (producer.rs:122) rejects \
@@ -586,7 +598,7 @@ fn oracles(case: &Case, runs: &[LayoutRun]) -> Option<OracleFail> {
                 }
             }
             return Some(OracleFail {
-                finding: None,
+                finding: None, class: "exact",
                 what: format!("exactness: layout {} delivers [{}], the artifact multiset means [{}]", i, r.obs, want),
             });
         }
@@ -599,7 +611,7 @@ fn oracles(case: &Case, runs: &[LayoutRun]) -> Option<OracleFail> {
             };
             if !good {
                 return Some(OracleFail {
-                    finding: None,
+                    finding: None, class: "map",
                     what: format!("path mapping: layout {} returned {:?}, the linked-files-map.json contents are {:?}", i, r.map, maps),
                 });
             }
@@ -614,7 +626,7 @@ fn oracles(case: &Case, runs: &[LayoutRun]) -> Option<OracleFail> {
                     let stems: BTreeSet<String> = inc.keys().map(|k| hex(k.0.as_bytes())).collect();
                     if strip_stems(&runs[a].obs, &stems) == strip_stems(&runs[b].obs, &stems) {
                         return Some(OracleFail {
-                            finding: Some(F_GCNO_LAST),
+                            finding: Some(F_GCNO_LAST), class: "packaging",
                             what: format!(
                                 "packaging: layouts {} and {} of the same artifacts deliver [{}] vs [{}]; they differ only \
                                  in which of several different gcno files with the same relative name is used \
@@ -625,7 +637,7 @@ fn oracles(case: &Case, runs: &[LayoutRun]) -> Option<OracleFail> {
                     }
                 }
                 return Some(OracleFail {
-                    finding: None,
+                    finding: None, class: "packaging",
                     what: format!(
                         "packaging: layouts {} and {} of the same artifacts deliver [{}] vs [{}]",
                         a, b, runs[a].obs, runs[b].obs
@@ -635,13 +647,132 @@ fn oracles(case: &Case, runs: &[LayoutRun]) -> Option<OracleFail> {
             let maps: BTreeSet<u64> = case.arts.iter().filter(|x| x.intent == Intent::Map).map(|x| x.cid()).collect();
             if maps.len() <= 1 && runs[a].map != runs[b].map {
                 return Some(OracleFail {
-                    finding: None,
+                    finding: None, class: "packaging-map",
                     what: format!("packaging: path mapping differs between layouts {} and {}: {:?} vs {:?}", a, b, runs[a].map, runs[b].map),
                 });
             }
         }
     }
     None
+}
+
+// ---------------------------------------------------------------------------------------------
+// the same property at the CLI: the lcov report of every layout equals the aggregate of what the
+// usable inputs contain (each exactly once), hence is the same for all layouts
+
+fn cli_oracle(dir: &Path, case: &Case) -> Option<OracleFail> {
+    use corrlib::pipe::*;
+    let mut inputs: Vec<Input> = vec![];
+    for a in &case.arts {
+        let parsed = match a.intent {
+            Intent::Info => grcov::parse_lcov(a.content.clone(), true).ok(),
+            Intent::Xml => grcov::parse_jacoco_xml_report(std::io::BufReader::new(std::io::Cursor::new(a.content.clone()))).ok(),
+            _ => None,
+        };
+        if let Some(parsed) = parsed {
+            inputs.push(Input { name: a.rel.clone(), format: "Info", id: String::new(), bytes: a.content.clone(), parsed });
+        }
+    }
+    let refs: Vec<&Input> = inputs.iter().collect();
+    let want = show_map(&aggregate(&refs));
+    let mut first: Option<String> = None;
+    for (i, lay) in case.layouts.iter().enumerate() {
+        let root = dir.join(format!("cli{}", i));
+        let (paths, _) = build_layout(&root, case, lay);
+        let mut extra: Vec<String> = vec!["-t".into(), "lcov".into(), "--branch".into(), "--no-demangle".into()];
+        if case.llvm {
+            extra.push("--llvm".into());
+        }
+        // `--filter covered` (= ignore_orphan_gcno) also drops uncovered files from the report, which is
+        // C12's subject: the CLI stream runs without it (it has no gcno, so the flag changes no item)
+        let out = run_grcov(&RunCfg {
+            dir: &std::env::current_dir().unwrap(),
+            args: paths,
+            threads: 2,
+            perturb: None,
+            fault: None,
+            limit: std::time::Duration::from_secs(60),
+            extra,
+        });
+        if out.exit != Some(0) {
+            return Some(OracleFail {
+                finding: None, class: "cli-exit",
+                what: format!("CLI: layout {}: grcov exited with {:?}: {}", i, out.exit, out.stderr.lines().last().unwrap_or("")),
+            });
+        }
+        let got = match decode_lcov_report(&out.stdout) {
+            Ok(m) => show_map(&m),
+            Err(e) => return Some(OracleFail { finding: None, class: "cli-decode", what: format!("CLI: layout {}: report is not lcov: {}", i, e) }),
+        };
+        if got != want {
+            return Some(OracleFail {
+                finding: None, class: "cli-aggregate",
+                what: format!(
+                    "CLI: the report of layout {} differs from the aggregate of the usable inputs (each counted once): report [{}] aggregate [{}]",
+                    i, got, want
+                ),
+            });
+        }
+        if let Some(f) = &first {
+            if *f != got {
+                return Some(OracleFail { finding: None, class: "cli-differ", what: format!("CLI: reports of layouts 0 and {} differ", i) });
+            }
+        } else {
+            first = Some(got);
+        }
+    }
+    None
+}
+
+/// info/xml inputs with overlapping files (corrlib::pipe::gen_inputs) among decoys that would change the
+/// counts if they were used
+fn gen_cli_case(rng: &mut Rng, cfg: &GenCfg) -> Case {
+    let k = rng.range(1, 5) as usize;
+    let mut arts: Vec<Artifact> = vec![];
+    for inp in corrlib::pipe::gen_inputs(rng, k) {
+        let is_xml = inp.format == "JacocoXml";
+        if is_xml
+            && !(inp.bytes.len() >= 256
+                && std::str::from_utf8(&inp.bytes[..256]).is_ok()
+                && inp.bytes[..256].windows(MARKER.len()).any(|w| w == MARKER))
+        {
+            continue;
+        }
+        arts.push(Artifact {
+            rel: format!("{}{}", rng.pick(DIRS), inp.name),
+            content: inp.bytes,
+            intent: if is_xml { Intent::Xml } else { Intent::Info },
+        });
+    }
+    if !arts.iter().any(|a| a.intent == Intent::Info) {
+        arts.push(art("base.info", b"TN:b\nSF:src/a.c\nDA:1,1\nend_of_record\n", Intent::Info));
+    }
+    // decoys carrying real coverage data: wrong signature, wrong extension, dot-file, gcda without gcno
+    let lcov = |n: u64| format!("SF:src/a.c\nDA:1,{}\nDA:77,{}\nend_of_record\n", n, n).into_bytes();
+    for _ in 0..rng.range(0, 3) {
+        let n = rng.range(1, 9);
+        let (rel, content): (String, Vec<u8>) = match rng.below(6) {
+            0 => (format!("{}fake{}.info", rng.pick(DIRS), rng.below(3)), [b"\n".to_vec(), lcov(n)].concat()),
+            1 => (format!("{}fake{}.info", rng.pick(DIRS), rng.below(3)), [b" ".to_vec(), lcov(n)].concat()),
+            2 => ("trace.txt".to_string(), lcov(n)),
+            3 => (format!("{}.info", rng.pick(DIRS)), lcov(n)),
+            4 => ("upper.INFO".to_string(), lcov(n)),
+            _ => (format!("{}other{}.xml", rng.pick(DIRS), rng.below(3)), gen_xml_decoy(rng)),
+        };
+        if !arts.iter().any(|a| a.rel == rel) {
+            arts.push(Artifact { rel, content, intent: Intent::Decoy });
+        }
+    }
+    if rng.chance(1, 3) {
+        arts.push(art("lonely.gcda", b"adcg*204 no notes", Intent::Gcda));
+    }
+    rng.shuffle(&mut arts);
+    let styles = [Style::OneDir, Style::OneZip, Style::Split, Style::MaxPlain];
+    let sa = *rng.pick(&styles);
+    let sb = *rng.pick(&styles);
+    let la = gen_layout(rng, &arts, sa, cfg);
+    let lb = gen_layout(rng, &arts, sb, cfg);
+    Case { ignore_orphan: false, llvm: rng.chance(1, 4), arts, layouts: vec![la, lb], cli: true }
 }
 
 // ---------------------------------------------------------------------------------------------
@@ -655,13 +786,16 @@ struct Evaluated {
 fn evaluate(dir: &Path, case: &Case) -> Evaluated {
     let runs: Vec<LayoutRun> =
         case.layouts.iter().enumerate().map(|(i, l)| run_layout(&dir.join(format!("L{}", i)), case, l)).collect();
-    let fail = oracles(case, &runs);
+    let mut fail = oracles(case, &runs);
+    if fail.is_none() && case.cli {
+        fail = cli_oracle(dir, case);
+    }
     let _ = std::fs::remove_dir_all(dir);
     Evaluated { runs, fail }
 }
 
 /// drop artifacts one at a time while the same oracle failure (same finding id) persists
-fn shrink(dir: &Path, case: &Case, finding: Option<&'static str>) -> Case {
+fn shrink(dir: &Path, case: &Case, finding: Option<&'static str>, class: &'static str) -> Case {
     let mut cur = case.clone();
     let mut progressed = true;
     let mut budget = 200;
@@ -685,7 +819,7 @@ fn shrink(dir: &Path, case: &Case, finding: Option<&'static str>) -> Case {
                     .collect();
             }
             let e = evaluate(dir, &t);
-            if matches!(&e.fail, Some(f) if f.finding == finding) {
+            if matches!(&e.fail, Some(f) if f.finding == finding && f.class == class) {
                 cur = t;
                 progressed = true;
             } else {
@@ -719,7 +853,7 @@ fn process(rep: &mut Report, pend: &mut Vec<Pending>, case: Case, idx: u64, stre
     let usable = expected(&case, SPEC, &BTreeMap::new()) != "panic no-input";
     let distinct_layouts = e.runs.len() >= 2 && e.runs[0].req_args != e.runs[1].req_args;
     rep.case(&canonical, usable && distinct_layouts);
-    if idx % 97 == 0 {
+    if idx % 97 == 11 {
         rep.sample(json!({"request": format!("c17.run {} {}", opts_tokens(&case), e.runs[0].req_args), "impl": e.runs[0].impl_out,
             "impl_other_layout": e.runs.get(1).map(|r| r.impl_out.clone())}));
     }
@@ -729,7 +863,7 @@ fn process(rep: &mut Report, pend: &mut Vec<Pending>, case: Case, idx: u64, stre
         // minimise the first few failures of each kind (each step rebuilds and reruns both layouts)
         let seen = rep.failures.iter().filter(|x| x.finding.as_deref() == f.finding).count();
         if seen < if f.finding.is_some() { 2 } else { 6 } {
-            let min = shrink(&dir, &case, f.finding);
+            let min = shrink(&dir, &case, f.finding, f.class);
             let e2 = evaluate(&dir, &min);
             let what = e2.fail.map(|f| f.what).unwrap_or_else(|| f.what.clone());
             rep.fail("oracle", f.finding, format!("{} (minimised)", what), case_json(&min));
@@ -1206,7 +1340,7 @@ fn gen_case(rng: &mut Rng, pools: &Pools, cfg: &GenCfg, rep: &mut Report) -> Cas
         rng.shuffle(&mut lb.order);
         lb.order.reverse();
     }
-    Case { ignore_orphan, llvm, arts, layouts: vec![la, lb] }
+    Case { ignore_orphan, llvm, arts, layouts: vec![la, lb], cli: false }
 }
 
 // ---------------------------------------------------------------------------------------------
@@ -1230,6 +1364,7 @@ fn witnesses() -> Vec<(&'static str, Case)> {
         Case {
             ignore_orphan: false,
             llvm: false,
+            cli: false,
             arts: vec![art("jacoco.xml", &short, Intent::XmlShort)],
             layouts: vec![
                 simple_layout(vec![CType::Dir], vec![0], vec![ArgRef::C(0)]),
@@ -1242,6 +1377,7 @@ fn witnesses() -> Vec<(&'static str, Case)> {
         Case {
             ignore_orphan: false,
             llvm: false,
+            cli: false,
             arts: vec![art("jacoco.xml", &short, Intent::XmlShort), art("r.info", info, Intent::Info)],
             layouts: vec![
                 simple_layout(vec![CType::Dir], vec![0, 0], vec![ArgRef::C(0)]),
@@ -1254,6 +1390,7 @@ fn witnesses() -> Vec<(&'static str, Case)> {
         Case {
             ignore_orphan: false,
             llvm: false,
+            cli: false,
             arts: vec![art("jacoco.xml", &gen_xml_badutf8(&mut rng), Intent::XmlBadUtf8), art("r.info", info, Intent::Info)],
             layouts: vec![
                 simple_layout(vec![CType::Dir], vec![0, 0], vec![ArgRef::C(0)]),
@@ -1267,6 +1404,7 @@ fn witnesses() -> Vec<(&'static str, Case)> {
         Case {
             ignore_orphan: false,
             llvm: false,
+            cli: false,
             arts: vec![
                 art("sub/a.gcno", b"oncg*22B build one", Intent::Gcno),
                 art("sub/a.gcno", b"oncg*22B build two", Intent::Gcno),
@@ -1284,6 +1422,7 @@ fn witnesses() -> Vec<(&'static str, Case)> {
         Case {
             ignore_orphan: true,
             llvm: false,
+            cli: false,
             arts: vec![
                 art("lib/m.gcno", b"oncg*204 llvm notes", Intent::Gcno),
                 art("lib/n.gcno", b"oncg*22B gcc notes", Intent::Gcno),
@@ -1371,6 +1510,13 @@ pub fn run(rep: &mut Report) {
     for _ in 0..nb {
         let case = gen_case(&mut rng, &pools, &b_cfg, rep);
         process(rep, &mut pend, case, idx, "badarg");
+        idx += 1;
+    }
+    // the CLI: reports of both layouts equal the aggregate of the usable inputs
+    let nc = rep.budget(30, 6);
+    for _ in 0..nc {
+        let case = gen_cli_case(&mut rng, &main_cfg);
+        process(rep, &mut pend, case, idx, "cli");
         idx += 1;
     }
     tie(rep, &pend, "c17");
